@@ -340,7 +340,14 @@ def index(it, st, obj: V, idx: V, node) -> V:
             eng.assume_alive(st, v)
         return v
     if isinstance(obj, VBytes):
-        raise Unsupported("bytes[int]")
+        # b[i] -> int in 0..255 (IndexError when out of range)
+        i = eng.coerce(st, idx, "int")
+        n = z3.Length(obj.t)
+        ok = z3.And(i.t < n, i.t >= -n)
+        if not eng.branch(st, ok, f"index-in-range@{node.lineno}"):
+            eng.raise_(st, "IndexError", tag={"site": it.site(node)})
+        pos = z3.If(i.t < 0, i.t + n, i.t)
+        return VInt(z3.BV2Int(obj.t[pos]))
     if isinstance(obj, VDict):
         try:
             k = py_key(idx)
@@ -891,6 +898,15 @@ def bi_any(it, st, args, kwargs, node):
     raise Unsupported(f"{it.site(node)}: any({v!r})")
 
 
+def _bi_callable(it, st, args, node):
+    v = it.eng.unbox(st, args[0])
+    if isinstance(v, (VFunc, VClass)):
+        return VBool(True)
+    if isinstance(v, (VInt, VReal, VBool, VBytes, VStr, VNone, VList, VTuple, VDict, VSeq)):
+        return VBool(False)
+    raise Unsupported(f"{it.site(node)}: callable({v!r})")
+
+
 def bi_all(it, st, args, kwargs, node):
     """all(...) = not any(not ...)"""
     eng = it.eng
@@ -1091,6 +1107,7 @@ BUILTIN_FUNCS = {
     "range": bi_range,
     "hasattr": bi_hasattr,
     "all": bi_all,
+    "callable": lambda it, st, args, kwargs, node: _bi_callable(it, st, args, node),
     "next": bi_next,
     "type": bi_type,
     "repr": bi_repr,
